@@ -559,7 +559,7 @@ def r_link(P, chk):
                 if not ok:
                     chk.violation(rid, "link:%s:%s->mate=%s" % (f.name, b, r), f.where(x),
                                   "%s sets %s->mate = %s without the reverse link" % (f.name, b, r))
-    chk.floor(rid, n, 15, "next / mate stores")
+    chk.floor(rid, n, 10, "next / mate stores")
     # tail: only ever stored on a chain head (or on a node for itself)
     nt = 0
     for f in P.all_funcs:
@@ -593,6 +593,8 @@ def r_link(P, chk):
                         continue
                     if src["k"] == "CallExpr" and ((src.get("callee") or "").startswith("token_new") or src.get("callee") == "token_copy"):
                         why = "fresh node"
+                    elif src["k"] == "CallExpr" and src.get("callee") and _returns_chain_head(f.unit.funcs.get(src["callee"])):
+                        why = "result of %s, which walks prev links to the head" % src["callee"]
                     elif src["k"] == "MemberExpr" and src["n"] == "child":
                         why = "first child = chain head"
                 # the node's own prev link is cut in this function: it is a head now
@@ -860,6 +862,41 @@ def _linear(f, n, depth=0):
         if len(inits) == 1 and not assigns:
             return _linear(f, inits[0]["c"][0], depth + 1)
     return {key(s): 1}
+
+
+def _returns_chain_head(h):
+    """h returns a token only once its prev link is NULL: every `return v;` is unreachable while `v->prev` is decided non-null."""
+    from .prog import edpe_blocks as _edpe
+    if h is None:
+        return False
+    rets = [r for r in h.walk() if r["k"] == "ReturnStmt" and r.get("c") and r["c"][0] is not None]
+    if not rets:
+        return False
+    pos_ = h.cfg.positions()
+    for r in rets:
+        v = strip(r["c"][0])
+        if v is None or v["k"] != "DeclRefExpr":
+            return False
+        tk = v["n"]
+        nn = {tk + "->prev", tk + "->prev!=0"}
+        zz = {tk + "->prev==0", "!" + tk + "->prev"}
+
+        def decide(t, nn=nn, zz=zz):
+            t = strip(t)
+            if t is None:
+                return None
+            k2 = _norm(key(t)).replace(" ", "")
+            if k2 in nn:
+                return True
+            if k2 in zz:
+                return False
+            return None
+        z = r
+        while z is not None and z.get("i") not in pos_:
+            z = next((y for y in walk(z) if y.get("i") in pos_ and y is not z), None)
+        if z is None or pos_[z["i"]][0] in _edpe(h, "?none", 0, extra_decide=decide):
+            return False
+    return True
 
 
 def r_span_split(P, chk):
